@@ -44,6 +44,8 @@ LOSSY = {
 
 
 class Step:
+    at = None   # CFG node that evaluates the step's expression (flow-sensitive derivations only)
+
     def __init__(self, kind: str, node: ast.AST, note: str = ""):
         self.kind = kind  # source alias slice element passthrough lossy
         self.node = node
@@ -82,16 +84,135 @@ def _bindings(fi: FuncInfo, name: str) -> List[Tuple[str, ast.AST]]:
     return out
 
 
-def derive(fi: FuncInfo, expr: ast.AST, sources: Iterable[str], passthrough: Optional[Dict[str, Optional[int]]] = None, _seen=None) -> List[Step]:
+def _reaching(fi: FuncInfo):
+    """IN[node id] = {local name -> frozenset(ids of the CFG nodes whose binding of that name may reach the node)}."""
+    cached = getattr(fi, "_g2_reach", None)
+    if cached is not None:
+        return cached
+    cfg = fi.cfg
+    gen = {}
+    for n in cfg.nodes:
+        names = set()
+        if n.ast is None:
+            continue
+        if n.kind == "for":
+            names = {x.id for x in ast.walk(n.ast.target) if isinstance(x, ast.Name)}
+        elif n.kind == "with":
+            for it in n.ast.items:
+                if it.optional_vars is not None:
+                    names |= {x.id for x in ast.walk(it.optional_vars) if isinstance(x, ast.Name)}
+        elif n.kind in ("stmt", "test"):
+            for x in q.walk_local(n.ast):
+                if isinstance(x, ast.Name) and isinstance(x.ctx, (ast.Store, ast.Del)):
+                    names.add(x.id)
+        elif n.kind == "handler" and getattr(n.ast, "name", None):
+            names = {n.ast.name}
+        if names:
+            gen[n.id] = names
+    IN = {cfg.entry.id: {}}
+    work = [cfg.entry.id]
+    while work:
+        nid = work.pop()
+        cur = IN[nid]
+        out = cur
+        if nid in gen:
+            out = dict(cur)
+            for nm in gen[nid]:
+                out[nm] = frozenset([nid])
+        for sid, kind in cfg.succ[nid]:
+            src = out
+            if kind == "exc" and nid in gen:
+                src = dict(cur)
+                for nm in gen[nid]:
+                    src[nm] = src.get(nm, frozenset()) | {nid}
+            old = IN.get(sid)
+            if old is None:
+                IN[sid] = dict(src)
+                work.append(sid)
+                continue
+            changed = False
+            for nm, ds in src.items():
+                o = old.get(nm)
+                if o is None:
+                    old[nm] = ds
+                    changed = True
+                elif not ds <= o:
+                    old[nm] = o | ds
+                    changed = True
+            if changed:
+                work.append(sid)
+    try:
+        fi._g2_reach = IN
+    except Exception:
+        pass
+    return IN
+
+
+def _bindings_at(fi: FuncInfo, name: str, at: "Node"):
+    """Like _bindings but only the bindings that may reach CFG node ``at``: [(kind, expr, defining node)]."""
+    IN = _reaching(fi)
+    out = []
+    for did in sorted(IN.get(at.id, {}).get(name, ())):
+        dn = fi.cfg.nodes[did]
+        if dn.kind == "for":
+            if isinstance(dn.ast.target, ast.Name) and dn.ast.target.id == name:
+                out.append(("element", dn.ast.iter, dn))
+            else:
+                out.append(("unpack", dn.ast.iter, dn))
+            continue
+        if dn.kind != "stmt":
+            out.append(("unpack", dn.ast, dn))
+            continue
+        tmp = ast.FunctionDef(name="_", args=ast.arguments(posonlyargs=[], args=[], kwonlyargs=[], kw_defaults=[], defaults=[]), body=[dn.ast], decorator_list=[])
+        class _F:
+            node = tmp
+        for kind, v in _bindings(_F, name):
+            out.append((kind, v, dn))
+    return out
+
+
+def derive(fi: FuncInfo, expr: ast.AST, sources: Iterable[str], passthrough: Optional[Dict[str, Optional[int]]] = None, _seen=None, at=None) -> List[Step]:
+    """``at``: the CFG node that evaluates ``expr`` — bindings are then followed flow-sensitively (reaching definitions),
+    so a same-named local of an earlier loop does not leak into the chain."""
     sources = set(sources)
     passthrough = passthrough or {}
     seen = _seen if _seen is not None else set()
     steps: List[Step] = []
+    here = [at]
 
     def go(e: ast.AST):
         d = q.dotted(e) if isinstance(e, (ast.Name, ast.Attribute)) else None
         if d is not None and d in sources:
             steps.append(Step("source", e))
+            return
+        if isinstance(e, ast.Name) and here[0] is not None:
+            key_ = (e.id, here[0].id)
+            if key_ in seen:
+                return
+            seen.add(key_)
+            bs3 = _bindings_at(fi, e.id, here[0])
+            if not bs3:
+                if e.id in fi.params():
+                    raise AnalysisError("x_exact: %s derives from parameter %s which is not a declared source" % (fi.qualname, e.id))
+                raise AnalysisError("x_exact: no binding of %s reaches %s in %s" % (e.id, q.unparse(here[0].ast)[:40] if here[0].ast is not None else "?", fi.qualname))
+            for kind, v, dn in bs3:
+                saved = here[0]
+                here[0] = dn
+                try:
+                    if kind == "value":
+                        st_ = Step("alias", v, e.id)
+                        st_.at = dn
+                        steps.append(st_)
+                        go(v)
+                    elif kind == "element":
+                        steps.append(Step("element", v, e.id))
+                        go_iter(v)
+                    elif kind == "aug":
+                        raise AnalysisError("x_exact: %s is modified in place (%s)" % (e.id, q.unparse(v)))
+                    else:
+                        raise AnalysisError("x_exact: %s is bound by tuple-unpacking of %s (unknown idiom)" % (e.id, q.unparse(v)))
+                finally:
+                    here[0] = saved
             return
         if isinstance(e, ast.Name):
             if e.id in seen:
@@ -116,7 +237,9 @@ def derive(fi: FuncInfo, expr: ast.AST, sources: Iterable[str], passthrough: Opt
             return
         if isinstance(e, ast.Subscript):
             if isinstance(e.slice, ast.Slice):
-                steps.append(Step("slice", e))
+                st_ = Step("slice", e)
+                st_.at = here[0]
+                steps.append(st_)
             else:
                 steps.append(Step("element", e))
             go(e.value)
@@ -194,8 +317,8 @@ def derive(fi: FuncInfo, expr: ast.AST, sources: Iterable[str], passthrough: Opt
     return steps
 
 
-def check_exact(ck, rule: str, fi: FuncInfo, sink: ast.AST, sources: Iterable[str], what: str, passthrough: Optional[Dict[str, Optional[int]]] = None, site: Optional[ast.AST] = None) -> List[Step]:
-    steps = derive(fi, sink, sources, passthrough)
+def check_exact(ck, rule: str, fi: FuncInfo, sink: ast.AST, sources: Iterable[str], what: str, passthrough: Optional[Dict[str, Optional[int]]] = None, site: Optional[ast.AST] = None, at=None) -> List[Step]:
+    steps = derive(fi, sink, sources, passthrough, at=at)
     lossy = [s for s in steps if s.kind == "lossy"]
     reached = any(s.kind == "source" for s in steps)
     if not lossy and not reached:
@@ -281,6 +404,18 @@ def slice_delimiters(fi: FuncInfo, sub: ast.Subscript, facts) -> List[Tuple[bool
                 continue
             if isinstance(e, ast.Call) and isinstance(e.func, ast.Attribute) and e.func.attr == method and q.unparse(e.func.value) in bases and len(e.args) == 1 and _const_len(e.args[0], fi) is not None:
                 res.append(e.args[0])
+            # X[0] == 'c'  is  X.startswith('c');  X[-1] == 'c'  is  X.endswith('c')  (one-character literal)
+            if isinstance(e, ast.Compare) and len(e.ops) == 1 and isinstance(e.ops[0], ast.Eq):
+                l_, r_ = e.left, e.comparators[0]
+                if _const_len(l_, fi) is not None and not _const_len(r_, fi):
+                    l_, r_ = r_, l_
+                if isinstance(l_, ast.Subscript) and q.unparse(l_.value) in bases and not isinstance(l_.slice, ast.Slice) and _const_len(r_, fi) == 1:
+                    try:
+                        ix = q.fold(l_.slice, {})
+                    except q.NotFoldable:
+                        ix = None
+                    if (method == "startswith" and ix == 0) or (method == "endswith" and ix == -1):
+                        res.append(r_)
         return res
 
     lo, hi = sl.lower, sl.upper
